@@ -838,6 +838,12 @@ protect_with_libcoap(coap_session_t *s, const refoscore_msg_t *msg, uint8_t type
     fprintf(stderr, "harness: libcoap cannot parse the original message %s\n", hexs(buf, (size_t)n, 60));
     _exit(2);
   }
+  /* what coap_send does for a request on an OSCORE session before protecting it (src/coap_net.c): Proxy-Uri becomes Proxy-Scheme +
+   * Uri-* options (RFC 8613 4.1.3.3) */
+  if (COAP_PDU_IS_REQUEST(p) && !coap_rebuild_pdu_for_proxy(p)) {
+    coap_delete_pdu(p);
+    return 0;
+  }
   coap_pdu_t *o = coap_oscore_new_pdu_encrypted_lkd(s, p, NULL, own_piv ? OSCORE_SEND_PARTIAL_IV : OSCORE_SEND_NO_IV);
   coap_delete_pdu(p);
   if (!o)
@@ -1714,6 +1720,82 @@ run_space(struct space *sp, double budget) {
   vx_ev_add_states((long long)st.done, (long long)st.done, (long long)st.done);
 }
 
+/* ------------------------------------------------------------------------------------------ */
+/* space "proxy-uri": RFC 8613 4.1.3.3 -- a request with Proxy-Uri is protected as if the application had given Proxy-Scheme,
+ * Uri-Host, Uri-Port (class U, outer) and Uri-Path / Uri-Query (class E, inner).  libcoap gets the message with the Proxy-Uri
+ * option, the reference the split form (split by this table, not by code).  Hop-Limit 16 is on both sides, as libcoap adds it to any
+ * message with a proxy option. */
+struct pucase {
+  const char *uri, *scheme, *host;
+  int port; /* 0: the scheme's default, no Uri-Port */
+  const char *path[3], *query[2];
+};
+static const struct pucase PU[] = {
+    {"coap://ex.org/a", "coap", "ex.org", 0, {"a"}, {0}},
+    {"coap://h.example.org/tv1/x?k=v", "coap", "h.example.org", 0, {"tv1", "x"}, {"k=v"}},
+    {"coap://example.com:5684/a/b", "coap", "example.com", 5684, {"a", "b"}, {0}},
+    {"coaps://a-rather-long-host-name.example.net:5683/p?q=1&r=2", "coaps", "a-rather-long-host-name.example.net", 5683, {"p"}, {"q=1", "r=2"}},
+    {"coap://10.0.0.1:61616/sensors/temp/outside", "coap", "10.0.0.1", 61616, {"sensors", "temp", "outside"}, {0}},
+    {"coaps://h/", "coaps", "h", 0, {0}, {0}},
+};
+#define NPU ((int)(sizeof PU / sizeof PU[0]))
+static const struct ctxspec PU_CTX[] = {{1, 1, 0, 0, 16}, {0, 1, 8, 8, 16}, {3, 7, 1, 0, 32}};
+#define NPU_CTX 3
+static void
+proxy_case(uint64_t idx, void *arg) {
+  (void)arg;
+  const struct pucase *u = &PU[idx % NPU];
+  const struct ctxspec *cx = &PU_CTX[(idx / NPU) % NPU_CTX];
+  int con = (int)(idx / NPU / NPU_CTX) % 2, paylen = (idx / NPU / NPU_CTX / 2) % 2 ? 5 : 0;
+  static const uint8_t hl[1] = {16};
+  char cs[300];
+  snprintf(cs, sizeof cs, "proxy-uri %s ctx{sid=%d rid=%d idctx=%d} %s paylen=%d", u->uri, cx->slen, cx->rlen, cx->idctx, con ? "CON" : "NON", paylen);
+  if (!pair_get(cx, 5, 5))
+    return;
+  refoscore_msg_t split, prox, ref_out, lmsg;
+  refoscore_reqbind_t bind;
+  refoscore_msg_init(&split, paylen ? CODE(0, 2) : CODE(0, 1));
+  refoscore_msg_init(&prox, paylen ? CODE(0, 2) : CODE(0, 1));
+  refoscore_msg_add_opt(&split, 3, u->host, strlen(u->host));
+  if (u->port) {
+    uint8_t pv[2] = {(uint8_t)(u->port >> 8), (uint8_t)u->port};
+    refoscore_msg_add_opt(&split, 7, pv, 2);
+  }
+  for (int i = 0; i < 3 && u->path[i]; i++)
+    refoscore_msg_add_opt(&split, 11, u->path[i], strlen(u->path[i]));
+  for (int i = 0; i < 2 && u->query[i]; i++)
+    refoscore_msg_add_opt(&split, 15, u->query[i], strlen(u->query[i]));
+  refoscore_msg_add_opt(&split, REFOSCORE_OPT_HOP_LIMIT, hl, 1);
+  refoscore_msg_add_opt(&split, REFOSCORE_OPT_PROXY_SCHEME, u->scheme, strlen(u->scheme));
+  refoscore_msg_add_opt(&prox, REFOSCORE_OPT_HOP_LIMIT, hl, 1);
+  refoscore_msg_add_opt(&prox, 35, u->uri, strlen(u->uri));
+  refoscore_msg_set_payload(&split, PAYLOAD, (size_t)paylen);
+  refoscore_msg_set_payload(&prox, PAYLOAD, (size_t)paylen);
+  static struct wire w;
+  uint8_t type = con ? 0 : 1, tok[8];
+  size_t tkl;
+  vxp_count(26, 1);
+  if (refoscore_protect_request(&G.rc, &split, 5, &ref_out, &bind)) {
+    fprintf(stderr, "harness: reference cannot protect %s\n", cs);
+    _exit(2);
+  }
+  if (!protect_with_libcoap(G.c.s, &prox, type, 0x4d4d, TOKEN8, 2, 0, &w)) {
+    vx_fail("proxy-uri:protect-refused", "%s: coap_oscore_new_pdu_encrypted_lkd returned NULL", cs);
+    return;
+  }
+  if (!compare_protected(cs, &w, &ref_out, 0, type, 0x4d4d, TOKEN8, 2, 1))
+    return;
+  int r = unprotect_with_libcoap(G.s.s, w.b, w.n, &lmsg, tok, &tkl);
+  if (r != 1) {
+    vx_fail("proxy-uri:roundtrip:rejected", "%s: mirrored libcoap context rejects the genuine request (%d)", cs, r);
+    return;
+  }
+  if (!compare_recovered(cs, "libcoap", &lmsg, &split, 0))
+    return;
+  vxp_count(27, 1);
+  vxp_distinct(vx_fnv(w.b, w.n, VX_FNV0));
+}
+
 int
 main(int argc, char **argv) {
   vx_main_init(argc, argv, "C14");
@@ -1768,6 +1850,8 @@ main(int argc, char **argv) {
   if (vxp_replay_if_match(msg_major.name, one_case, &msg_major) || vxp_replay_if_match(ctx_major.name, one_case, &ctx_major) ||
       vxp_replay_if_match(full.name, one_case, &full) || vxp_replay_if_match(tamper->name, one_case, tamper))
     return 0;
+  if (vxp_replay_if_match("proxy-uri", proxy_case, NULL))
+    return 0;
   if (vx_replay_path()) {
     fprintf(stderr, "replay file does not match any space\n");
     return 2;
@@ -1785,6 +1869,13 @@ main(int argc, char **argv) {
   run_space(&msg_major, 0.45 * B);
   run_space(&ctx_major, 0.10 * B);
   run_space(tamper, 0);
+  {
+    struct vxp_config pc = {.space = "proxy-uri", .total = (uint64_t)NPU * NPU_CTX * 2 * 2, .chunk = 4};
+    struct vxp_stats pst;
+    vxp_enumerate(&pc, proxy_case, NULL, &pst);
+    vx_ev_int("proxy_uri_cases", (long long)vxp_counter(26));
+    vx_ev_int("proxy_uri_roundtrips_ok", (long long)vxp_counter(27));
+  }
 #endif
 
   vx_ev_add_evals((long long)(vxp_counter(0) + vxp_counter(1) + vxp_counter(4)), (long long)vxp_distinct_count());
